@@ -233,7 +233,11 @@ impl Property for C12 {
         let env = new_env();
         env.mock_all_auths();
         env.ledger().set_sequence_number(case.start_seq as u32 + 1);
-        let accts: Vec<Address> = (0..N).map(|_| Address::generate(&env)).collect();
+        let mut accts: Vec<Address> = (0..N).map(|_| Address::generate(&env)).collect();
+        // the last holder is the account-kind address carrying the same 32 bytes as the second (contract-kind) one:
+        // two different holders whose balances, allowances and roles must never be confused
+        let twin = kind_twin(&env, &accts[1]);
+        *accts.last_mut().unwrap() = twin;
         let owner0 = 0u8;
         let token = register_native_token(
             &env,
